@@ -29,11 +29,11 @@ Open Scope Z_scope.
    equation, whose exact algebraic content is C02_batch_agrees_sound. *)
 Theorem C02_threshold_map :
   forall (S : Type) (ver : N -> S -> bool) (bat : list (N * S) -> bool) (aggv : S -> list (Z * N) -> bool)
-         (us : list utxo) (sigs : list (sigmap S)) (txType : Z),
+         (us : list utxo) (sigs : list (sigmap S)) (txType : Z) (hash : N) (fork : bool),
     (forall E, bat E = true -> forall k s, In (k, s) E -> ver k s = true) ->
     NoDup (map kptr (all_keys us)) ->
     Forall (fun m => NoDup (map fst m)) sigs ->
-    validate_inputs ver bat aggv us sigs None txType = Ok tt ->
+    validate_inputs ver bat aggv us sigs None txType hash fork = Ok tt ->
     forall i u, nth_error us i = Some u -> is_script_type (utype u) = true ->
     exists m t,
       nth_error sigs i = Some m /\ script_threshold (uscript u) = Some t /\
@@ -44,8 +44,8 @@ Theorem C02_threshold_map :
       (0 < t -> forall j os, In (j, os) m ->
          exists k s, nth_error (ukeys u) (N.to_nat j) = Some k /\ os = Some s /\ ver (kval k) s = true).
 Proof.
-  intros S ver bat aggv us sigs txType Hb Hnd Hwf H i u Hu Hs.
-  destruct (threshold_map S ver bat aggv us sigs txType Hnd Hwf H i u Hu Hs)
+  intros S ver bat aggv us sigs txType hash fork Hb Hnd Hwf H i u Hu Hs.
+  destruct (threshold_map S ver bat aggv us sigs txType hash fork Hnd Hwf H i u Hu Hs)
     as [m [t [H1 [H2 [H3 [H4 [H5 [H6 H7]]]]]]]].
   exists m, t. repeat split; try assumption; try lia.
   intros Hpos. exact (H7 Hpos Hb).
@@ -57,10 +57,10 @@ Print Assumptions C02_threshold_map.
    key at that index, and that call returned true. *)
 Theorem C02_threshold_map_batch_call :
   forall (S : Type) (ver : N -> S -> bool) (bat : list (N * S) -> bool) (aggv : S -> list (Z * N) -> bool)
-         (us : list utxo) (sigs : list (sigmap S)) (txType : Z),
+         (us : list utxo) (sigs : list (sigmap S)) (txType : Z) (hash : N) (fork : bool),
     NoDup (map kptr (all_keys us)) ->
     Forall (fun m => NoDup (map fst m)) sigs ->
-    validate_inputs ver bat aggv us sigs None txType = Ok tt ->
+    validate_inputs ver bat aggv us sigs None txType hash fork = Ok tt ->
     exists ents : keysigs S,
       (forall i u m j os, nth_error us i = Some u -> is_script_type (utype u) = true ->
          nth_error sigs i = Some m -> In (j, os) m ->
@@ -80,7 +80,7 @@ Print Assumptions C02_threshold_map_batch_call.
 Theorem C02_threshold_map_shared_pointer_refuted :
   exists (ver : N -> N -> bool) (us : list utxo) (sigs : list (sigmap N)),
     Forall (fun m => NoDup (map fst m)) sigs /\
-    validate_inputs ver (forallb (fun e => ver (fst e) (snd e))) (fun _ _ => false) us sigs None 0 = Ok tt /\
+    validate_inputs ver (forallb (fun e => ver (fst e) (snd e))) (fun _ _ => false) us sigs None 0 7 false = Ok tt /\
     exists u k s,
       nth_error us 0 = Some u /\ is_script_type (utype u) = true /\
       script_threshold (uscript u) = Some 1 /\
@@ -88,13 +88,13 @@ Theorem C02_threshold_map_shared_pointer_refuted :
       nth_error (ukeys u) 0 = Some k /\ ver (kval k) s = false.
 Proof.
   exists (fun k s => ((k =? 1) && (s =? 2)) || ((k =? 2) && (s =? 3)))%N.
-  exists [mkUtxo 0 [mkKey 100 1] [255; 254; 1]%N;
-          mkUtxo 0 [mkKey 100 1; mkKey 101 2] [255; 254; 2]%N].
+  exists [mkUtxo 0 [mkKey 100 1] [255; 254; 1]%N 0;
+          mkUtxo 0 [mkKey 100 1; mkKey 101 2] [255; 254; 2]%N 0].
   exists [[(0, Some 1)]; [(0, Some 2); (1, Some 3)]]%N.
   split.
   - repeat constructor; cbn; intuition discriminate.
   - split; [vm_compute; reflexivity|].
-    exists (mkUtxo 0 [mkKey 100 1] [255; 254; 1]%N), (mkKey 100 1), 1%N.
+    exists (mkUtxo 0 [mkKey 100 1] [255; 254; 1]%N 0), (mkKey 100 1), 1%N.
     vm_compute. repeat split.
 Qed.
 Print Assumptions C02_threshold_map_shared_pointer_refuted.
@@ -110,8 +110,8 @@ Print Assumptions C02_threshold_map_shared_pointer_refuted.
    concatenated key list.  No pointer hypothesis is needed here. *)
 Theorem C02_threshold_aggregate :
   forall (S : Type) (ver : N -> S -> bool) (bat : list (N * S) -> bool) (aggv : S -> list (Z * N) -> bool)
-         (us : list utxo) (sigs : list (sigmap S)) (sg : S) (signers : list Z) (txType : Z),
-    validate_inputs ver bat aggv us sigs (Some (sg, signers)) txType = Ok tt ->
+         (us : list utxo) (sigs : list (sigmap S)) (sg : S) (signers : list Z) (txType : Z) (hash : N) (fork : bool),
+    validate_inputs ver bat aggv us sigs (Some (sg, signers)) txType hash fork = Ok tt ->
     forall i u, nth_error us i = Some u -> is_script_type (utype u) = true ->
     exists t,
       script_threshold (uscript u) = Some t /\ 0 <= t <= Consts.ThrOperator64 /\
@@ -138,7 +138,7 @@ Print Assumptions C02_windows_partition.
    verifies for the input's own key, the transaction is not accepted. *)
 Theorem C02_tampered_map_rejected :
   forall (S : Type) (ver : N -> S -> bool) (bat : list (N * S) -> bool) (aggv : S -> list (Z * N) -> bool)
-         (us : list utxo) (sigs : list (sigmap S)) (txType : Z) i u m t,
+         (us : list utxo) (sigs : list (sigmap S)) (txType : Z) (hash : N) (fork : bool) i u m t,
     (forall E, bat E = true -> forall k s, In (k, s) E -> ver k s = true) ->
     NoDup (map kptr (all_keys us)) ->
     Forall (fun m => NoDup (map fst m)) sigs ->
@@ -147,10 +147,10 @@ Theorem C02_tampered_map_rejected :
     nth_error sigs i = Some m ->
     (exists j os, In (j, os) m /\
        forall k s, nth_error (ukeys u) (N.to_nat j) = Some k -> os = Some s -> ver (kval k) s = false) ->
-    validate_inputs ver bat aggv us sigs None txType <> Ok tt.
+    validate_inputs ver bat aggv us sigs None txType hash fork <> Ok tt.
 Proof.
-  intros S ver bat aggv us sigs txType i u m t Hb Hnd Hwf Hu Hs Ht Hpos Hm [j [os [Hj Hbad]]] H.
-  destruct (threshold_map S ver bat aggv us sigs txType Hnd Hwf H i u Hu Hs)
+  intros S ver bat aggv us sigs txType hash fork i u m t Hb Hnd Hwf Hu Hs Ht Hpos Hm [j [os [Hj Hbad]]] H.
+  destruct (threshold_map S ver bat aggv us sigs txType hash fork Hnd Hwf H i u Hu Hs)
     as [m' [t' [H1 [H2 [_ [_ [_ [_ H7]]]]]]]].
   rewrite Hm in H1. inversion H1; subst m'. rewrite Ht in H2. inversion H2; subst t'.
   destruct (H7 Hpos Hb j os Hj) as [k [s [Hk [Hos Hv]]]].
@@ -160,14 +160,14 @@ Print Assumptions C02_tampered_map_rejected.
 
 Theorem C02_tampered_aggregate_rejected :
   forall (S : Type) (ver : N -> S -> bool) (bat : list (N * S) -> bool) (aggv : S -> list (Z * N) -> bool)
-         (us : list utxo) (sigs : list (sigmap S)) (sg : S) (signers : list Z) (txType : Z) i u t,
+         (us : list utxo) (sigs : list (sigmap S)) (sg : S) (signers : list Z) (txType : Z) (hash : N) (fork : bool) i u t,
     nth_error us i = Some u -> is_script_type (utype u) = true ->
     script_threshold (uscript u) = Some t -> 0 < t ->
     (forall sel, map fst sel = signers -> aggv sg sel = false) ->
-    validate_inputs ver bat aggv us sigs (Some (sg, signers)) txType <> Ok tt.
+    validate_inputs ver bat aggv us sigs (Some (sg, signers)) txType hash fork <> Ok tt.
 Proof.
-  intros S ver bat aggv us sigs sg signers txType i u t Hu Hs Ht Hpos Hbad H.
-  destruct (threshold_aggregate S ver bat aggv us sigs sg signers txType H i u Hu Hs)
+  intros S ver bat aggv us sigs sg signers txType hash fork i u t Hu Hs Ht Hpos Hbad H.
+  destruct (threshold_aggregate S ver bat aggv us sigs sg signers txType hash fork H i u Hu Hs)
     as [t' [H1 [_ [_ [_ H5]]]]].
   rewrite Ht in H1. inversion H1; subst t'.
   destruct (H5 Hpos) as [_ [sel [Hv [Hm _]]]]. rewrite (Hbad sel Hm) in Hv. discriminate.
@@ -238,6 +238,38 @@ Theorem C02_unique_accepting_challenge : forall l a r s k k',
 Proof. exact unique_accepting_challenge. Qed.
 Print Assumptions C02_unique_accepting_challenge.
 
+(* ---- the lock state of the spent outputs ----------------------------------------------------------- *)
+
+(* validateInputs uses the lock state in one way only: an input locked for ANOTHER
+   payload hash refuses the transaction unless fork.  Being locked already - for this
+   very payload hash, by an earlier validation of the same payload - buys nothing: the
+   decision is the one for the same outputs with every lock cleared, so all theorems
+   above (stated for arbitrary lock states) apply to a re-validated payload whose
+   signatures differ. *)
+Theorem C02_lock_gate :
+  forall (S : Type) (ver : N -> S -> bool) (bat : list (N * S) -> bool) (aggv : S -> list (Z * N) -> bool)
+         (us : list utxo) (sigs : list (sigmap S)) ag (txType : Z) (hash : N) (fork : bool),
+    validate_inputs ver bat aggv us sigs ag txType hash fork = Ok tt ->
+    Forall (fun u => ulock u = 0%N \/ ulock u = hash \/ fork = true) us.
+Proof.
+  intros S ver bat aggv us sigs ag txType hash fork H.
+  eapply Forall_impl; [|exact (accepted_not_blocked S ver bat aggv us sigs ag txType hash fork H)].
+  intros u Hb. unfold lock_blocks in Hb.
+  destruct (N.eqb_spec (ulock u) 0) as [E0|E0]; [left; exact E0|].
+  destruct (N.eqb_spec (ulock u) hash) as [E1|E1]; [right; left; exact E1|].
+  destruct fork; [right; right; reflexivity | discriminate].
+Qed.
+Print Assumptions C02_lock_gate.
+
+Theorem C02_lock_state_irrelevant :
+  forall (S : Type) (ver : N -> S -> bool) (bat : list (N * S) -> bool) (aggv : S -> list (Z * N) -> bool)
+         (us : list utxo) (sigs : list (sigmap S)) ag (txType : Z) (hash : N) (fork : bool),
+    Forall (fun u => lock_blocks u hash fork = false) us ->
+    validate_inputs ver bat aggv us sigs ag txType hash fork =
+    validate_inputs ver bat aggv (map unlocked us) sigs ag txType hash fork.
+Proof. exact lock_state_irrelevant. Qed.
+Print Assumptions C02_lock_state_irrelevant.
+
 (* ---- Script.Validate is the threshold comparison --------------------------------------- *)
 
 Theorem C02_script_validate : forall s sum,
@@ -257,12 +289,12 @@ Definition ex_aggv (sg : N) (sel : list (Z * N)) : bool := (sg =? 77)%N.
 (* two script inputs (thresholds 2 and 1), the key VALUE 1 appears in both at
    distinct pointers; accepted; the hypotheses of C02_threshold_map hold *)
 Definition ex_us : list utxo :=
-  [mkUtxo 0 [mkKey 1 1; mkKey 2 2; mkKey 3 3] [255; 254; 2]%N;
-   mkUtxo 0 [mkKey 4 1; mkKey 5 4] [255; 254; 1]%N].
+  [mkUtxo 0 [mkKey 1 1; mkKey 2 2; mkKey 3 3] [255; 254; 2]%N 0;
+   mkUtxo 0 [mkKey 4 1; mkKey 5 4] [255; 254; 1]%N 0].
 Definition ex_sigs : list (sigmap N) := [[(2, Some 13); (0, Some 11)]; [(0, Some 11)]]%N.
 
 Example C02_ex_map_accepts :
-  validate_inputs ex_ver ex_bat ex_aggv ex_us ex_sigs None 0 = Ok tt /\
+  validate_inputs ex_ver ex_bat ex_aggv ex_us ex_sigs None 0 7 false = Ok tt /\
   NoDup (map kptr (all_keys ex_us)) /\ Forall (fun m => NoDup (map fst m)) ex_sigs /\
   (forall E, ex_bat E = true -> forall k s, In (k, s) E -> ex_ver k s = true).
 Proof.
@@ -275,20 +307,33 @@ Qed.
 (* one signature short, a forged signature, an index equal to the key count, the
    shared key signed for one input only: refused *)
 Example C02_ex_map_rejects :
-  validate_inputs ex_ver ex_bat ex_aggv ex_us [[(0, Some 11)]; [(0, Some 11)]]%N None 0 = Err /\
-  validate_inputs ex_ver ex_bat ex_aggv ex_us [[(2, Some 13); (0, Some 12)]; [(0, Some 11)]]%N None 0 = Err /\
-  validate_inputs ex_ver ex_bat ex_aggv ex_us [[(3, Some 13); (0, Some 11)]; [(0, Some 11)]]%N None 0 = Err /\
-  validate_inputs ex_ver ex_bat ex_aggv ex_us [[(2, Some 13); (0, Some 11)]; []]%N None 0 = Err.
+  validate_inputs ex_ver ex_bat ex_aggv ex_us [[(0, Some 11)]; [(0, Some 11)]]%N None 0 7 false = Err /\
+  validate_inputs ex_ver ex_bat ex_aggv ex_us [[(2, Some 13); (0, Some 12)]; [(0, Some 11)]]%N None 0 7 false = Err /\
+  validate_inputs ex_ver ex_bat ex_aggv ex_us [[(3, Some 13); (0, Some 11)]; [(0, Some 11)]]%N None 0 7 false = Err /\
+  validate_inputs ex_ver ex_bat ex_aggv ex_us [[(2, Some 13); (0, Some 11)]; []]%N None 0 7 false = Err.
 Proof. vm_compute. repeat split. Qed.
 
 (* aggregate: signers 0,2 for input 0 (window [0,3)) and 4 for input 1 (window [3,5)) *)
 Example C02_ex_aggregate :
-  validate_inputs ex_ver ex_bat ex_aggv ex_us [] (Some (77%N, [0; 2; 4])) 0 = Ok tt /\
-  validate_inputs ex_ver ex_bat ex_aggv ex_us [] (Some (77%N, [0; 3; 4])) 0 = Err /\   (* 3 belongs to input 1 *)
-  validate_inputs ex_ver ex_bat ex_aggv ex_us [] (Some (77%N, [0; 2; 5])) 0 = Err /\   (* 5 is out of range *)
-  validate_inputs ex_ver ex_bat ex_aggv ex_us [] (Some (77%N, [2; 0; 4])) 0 = Err /\   (* unsorted *)
-  validate_inputs ex_ver ex_bat ex_aggv ex_us [] (Some (78%N, [0; 2; 4])) 0 = Err /\   (* invalid aggregate *)
+  validate_inputs ex_ver ex_bat ex_aggv ex_us [] (Some (77%N, [0; 2; 4])) 0 7 false = Ok tt /\
+  validate_inputs ex_ver ex_bat ex_aggv ex_us [] (Some (77%N, [0; 3; 4])) 0 7 false = Err /\   (* 3 belongs to input 1 *)
+  validate_inputs ex_ver ex_bat ex_aggv ex_us [] (Some (77%N, [0; 2; 5])) 0 7 false = Err /\   (* 5 is out of range *)
+  validate_inputs ex_ver ex_bat ex_aggv ex_us [] (Some (77%N, [2; 0; 4])) 0 7 false = Err /\   (* unsorted *)
+  validate_inputs ex_ver ex_bat ex_aggv ex_us [] (Some (78%N, [0; 2; 4])) 0 7 false = Err /\   (* invalid aggregate *)
   count_in_window [0; 2; 4] (offset_of ex_us 1) (offset_of ex_us 1 + 2) = 1.
+Proof. vm_compute. repeat split. Qed.
+
+(* every input already locked for this payload hash (7): a forged signature is still refused, the
+   genuine ones still accepted; an input locked for another hash refuses unless fork *)
+Definition ex_locked (h : N) : list utxo := map (fun u => mkUtxo (utype u) (ukeys u) (uscript u) h) ex_us.
+Example C02_ex_locked :
+  validate_inputs ex_ver ex_bat ex_aggv (ex_locked 7) ex_sigs None 0 7 false = Ok tt /\
+  validate_inputs ex_ver ex_bat ex_aggv (ex_locked 7) [[(2, Some 13); (0, Some 12)]; [(0, Some 11)]]%N None 0 7 false = Err /\
+  validate_inputs ex_ver ex_bat ex_aggv (ex_locked 7) [[(0, Some 11)]]%N None 0 7 false = Err /\
+  validate_inputs ex_ver ex_bat ex_aggv (ex_locked 7) [] (Some (78%N, [0; 2; 4])) 0 7 false = Err /\
+  validate_inputs ex_ver ex_bat ex_aggv (ex_locked 9) ex_sigs None 0 7 false = Err /\
+  validate_inputs ex_ver ex_bat ex_aggv (ex_locked 9) ex_sigs None 0 7 true = Ok tt /\
+  validate_inputs ex_ver ex_bat ex_aggv (ex_locked 9) [[(2, Some 13); (0, Some 12)]; [(0, Some 11)]]%N None 0 7 true = Err.
 Proof. vm_compute. repeat split. Qed.
 
 (* the Schnorr algebra in Z_13 with a concrete challenge function *)
